@@ -29,7 +29,8 @@ ssize_t PyTreeSpec::HashValueImpl() const {
     HashCombine(seed, GetNumLeaves());
     HashCombine(seed, GetNumNodes());
     HashCombine(seed, m_none_is_leaf);
-    HashCombine(seed, m_namespace);
+    // NOTE: the namespace is not hashed. An empty namespace compares equal to any namespace,
+    // so equal treespecs with different (compatible) namespaces must have the same hash.
 
     for (const Node& node : m_traversal) {
         HashCombine(seed, node.kind);
